@@ -136,6 +136,10 @@ class C17(core.PropBase):
             doc = G.gen_env_template(rng, full=i % 2 == 0) if env else G.gen_job_template(rng, full=i % 3 == 0)
             applied = M.mutate(rng, doc, n=1 if i % 5 else 2, not_json=True)
             yield {"kind": "env" if env else "job", "doc": doc, "mut": [a[0] for a in applied]}
+        for i in range(n // 15):
+            doc = G.gen_job_template(rng, full=True)
+            applied = M.mutate(rng, doc, n=rng.choice([1, 2]), only=["high_precision"])
+            yield {"kind": "job", "doc": doc, "mut": [a[0] for a in applied]}
         for i in range(n // 10):
             env = i % 2 == 1
             doc = G.gen_env_template(rng, full=True) if env else G.gen_job_template(rng, full=True)
